@@ -261,7 +261,8 @@ def run_scores_case(ctx, case):
     for typ in ("standard", "normalised", "log"):
         ctx.tag("bias:" + typ)
         ctx.api("bias")
-        got = call(m.bias, obs, sim, trans, excl, typ)
+        from hyverif.core import runtime_str as _rs
+        got = call(m.bias, obs, sim, trans, excl, _rs(typ, len(obs)) if len(obs) % 2 else typ)
         ref = ref_bias(tl, sl, typ)
         if typ == "normalised" and abs(fmean(sl) + fmean(tl)) < 1e-6 * c:
             continue
@@ -371,12 +372,17 @@ def run_corr_case(ctx, case):
         te = np.asarray(trans.forward(ens), dtype=float)
     if not (np.isfinite(to).all() and np.isfinite(te).all()):
         return
+    from hyverif.core import runtime_str
     for typ in ("Pearson", "Spearman"):
+        # (the option as a string built at run time every other case)
+        typ_arg = runtime_str(typ, len(obs)) if len(obs) % 2 else typ
         for stat in ("mean", "median"):
             ctx.evaluated()
             ctx.tag(f"corr:{typ}:{stat}")
             ctx.api("corr")
-            got = call(m.corr, obs, ens, trans, False, stat, typ)
+            got = call(m.corr, obs, ens, trans, False,
+                       runtime_str(stat, len(obs) + 1) if len(obs) % 3 == 0 else stat,
+                       typ_arg)
             tsim = te.mean(axis=1) if stat == "mean" else np.median(te, axis=1)
             c = cond(to)
             cs = cond(tsim) if np.std(tsim) > 0 else None
@@ -473,6 +479,26 @@ def run_identities_case(ctx, case):
                                                        and fmean(to.tolist()) <= 1e-10))
         ctx.check("perfect.bias", okv, f"bias|{typ}|perfect", case,
                   lambda: {"got": repr(got), "trans": case["trans"]})
+    # the log bias is a difference of logarithms: observed and simulated series in very
+    # different units (a small mean against a huge one) shift it by log(s2) - log(s1)
+    if bool(np.all(obs > 0)) and bool(np.all(sim > 0)) and float(np.max(sim)) < 1e6 \
+            and float(np.mean(obs)) > 1e-3 and float(np.mean(sim)) > 1e-3:
+        ident_ = T().Identity()
+        b0 = call(m.bias, obs, sim, ident_, False, "log")
+        # (scales chosen so that no sum overflows - the largest simulated value times n
+        # stays below 1e306 - and the observed mean stays above the library's own 1e-10
+        # guard, while the quotient of the two means is beyond the largest double)
+        s2a = 2.0 ** math.floor(math.log2(1e306 / (len(sim) * float(np.max(sim)))))
+        s1a = 2.0 ** math.ceil(math.log2(4e-10 / float(np.mean(obs))))
+        for s1, s2 in ((s1a, s2a), (2.0 ** -20, 2.0 ** 900), (2.0 ** 900, 2.0 ** -20)):
+            ctx.tag("bias-log:units-far-apart")
+            ctx.api("bias")
+            got = call(m.bias, obs * s1, sim * s2, ident_, False, "log")
+            exp = b0 + math.log(s2) - math.log(s1) if isinstance(b0, float) else None
+            ctx.check("bias.log-separate-units", exp is not None and isinstance(got, float)
+                      and abs(got - exp) <= 1e-9 * max(1.0, abs(exp)),
+                      "bias|log|series-in-very-different-units", case,
+                      lambda: {"got": repr(got), "expected": exp, "scales": [s1, s2]})
     got = call(m.nse, obs, obs.copy(), trans)
     ctx.check("perfect.nse", eq(got, 1.0, 1e-12), "nse|perfect", case,
               lambda: {"got": repr(got)})
